@@ -64,6 +64,7 @@ def compare_full(ctx: Ctx, rule: str, construct: str, func: Func, spec_src: str,
     spec = sb.run(strip_doc(tree.body[0].body))
     if sb.track_effects:
         sb.stores["!signature"] = terms.signature_term(terms.Builder(ctx.prog, func, {}, inline_depth=0), tree.body[0])
+        sb.stores["!decorators"] = terms.decorators_term(tree.body[0])
     none = terms.app("const", "None")
     code = none if code is None else code
     spec = none if spec is None else spec
@@ -89,6 +90,7 @@ def equivalent(prog, func: Func, spec_src: str, **opts) -> bool:
         spec = sb.run(strip_doc(tree.body[0].body))
         if sb.track_effects:
             sb.stores["!signature"] = terms.signature_term(terms.Builder(prog, func, {}, inline_depth=0), tree.body[0])
+            sb.stores["!decorators"] = terms.decorators_term(tree.body[0])
     except terms.Opaque:
         return False
     none = terms.app("const", "None")
